@@ -141,6 +141,8 @@ def cases(seed, tier):
         d["bounds"] = rng.choice(["inf", "finite"])
         d["pfam"] = rng.choice(["gauss", "quartic"])
         out.append(d)
+    from vf import c16_extra
+    out.extend(c16_extra.cases(seed, tier))
     return out
 
 
@@ -369,6 +371,9 @@ BOUNDS = {"inf": (-math.inf, math.inf), "finite": (-1.5, 2.0), "lower": (0.0, ma
 
 
 def run_case(desc):
+    if desc.get("group") == "extra":
+        from vf import c16_extra
+        return c16_extra.run_case(desc)
     group = desc["group"]
     if group == "meta":
         return run_meta(desc)
